@@ -3,7 +3,7 @@ from symx.api import Instance
 
 META = {
     "bounds": {
-        "trees": "7 concrete widget trees covering Pile/Columns/Filler/AttrMap/Edit/Text, Frame/ListBox/SimpleFocusListWalker/Button, Overlay/LineBox/SolidFill, "
+        "trees": "8 concrete widget trees covering Columns(dividechars=0) of AttrMap/Text/SelectableIcon/LineBox (flow),  Pile/Columns/Filler/AttrMap/Edit/Text, Frame/ListBox/SimpleFocusListWalker/Button, Overlay/LineBox/SolidFill, "
                  "Columns/CheckBox/Padding/GridFlow (flow), WidgetPlaceholder/ProgressBar/BoxAdapter/Divider, Scrollable/ScrollBar, PopUpLauncher/WidgetDisable",
         "history": "every (size, focus) of 2 sizes x 2 focus states rendered first (cache primed, canvases held), then k solver-chosen steps; a step is one public "
                    "mutation from the tree's catalogue (8-16 entries: set_text, edit keys, set_state, contents insert/delete/assign, focus changes, set_title, attr maps, "
@@ -130,7 +130,6 @@ def _t_columns_flow(u):
         ("gf.cell_width7", lambda p, top, sz: setattr(p["gf"], "cell_width", 7)),
         ("gf.focus1", lambda p, top, sz: setattr(p["gf"], "focus_position", 1)),
         ("cols.focus2", lambda p, top, sz: setattr(p["cols"], "focus_position", 2)),
-        ("cols.dividechars0", lambda p, top, sz: setattr(p["cols"], "dividechars", 0)),
         ("cols.options_given", lambda p, top, sz: p["cols"].contents.__setitem__(0, (p["cb"], p["cols"].options("given", 4)))),
         ("key_right", lambda p, top, sz: top.keypress(sz, "right")),
     ]
@@ -214,7 +213,31 @@ def _t_popup(u):
     return top, p, [(12, 5), (8, 4)], muts
 
 
-TREES = {"pile": _t_pile, "frame": _t_frame, "overlay": _t_overlay, "colsflow": _t_columns_flow, "placeholder": _t_placeholder, "scroll": _t_scroll, "popup": _t_popup}
+def _t_columns_attr(u):
+    note = u.Text("note")
+    left = u.AttrMap(note, "hl")
+    right = u.Text("l1\nl2\nl3")
+    icon = u.SelectableIcon("pick", 0)
+    lb = u.LineBox(u.Text("in box"))
+    cols = u.Columns([left, right, ("pack", icon), lb], dividechars=0)
+    p = dict(note=note, left=left, right=right, icon=icon, lb=lb, cols=cols)
+    muts = [
+        ("right.set_text_short", lambda p, top, sz: p["right"].set_text("l1")),
+        ("right.set_text_long", lambda p, top, sz: p["right"].set_text("l1\nl2\nl3\nl4\nl5")),
+        ("note.set_text", lambda p, top, sz: p["note"].set_text("a note that is long enough to wrap twice")),
+        ("note.set_text_short", lambda p, top, sz: p["note"].set_text("n")),
+        ("left.set_attr_map", lambda p, top, sz: p["left"].set_attr_map({None: "hl2"})),
+        ("icon.set_text", lambda p, top, sz: p["icon"].set_text("pick me\nplease")),
+        ("lb.inner.set_text", lambda p, top, sz: p["lb"].original_widget.set_text("x")),
+        ("lb.set_title", lambda p, top, sz: p["lb"].set_title("t")),
+        ("cols.focus2", lambda p, top, sz: setattr(p["cols"], "focus_position", 2)),
+        ("cols.given3", lambda p, top, sz: p["cols"].contents.__setitem__(0, (p["left"], p["cols"].options("given", 3)))),
+        ("cols.del1", lambda p, top, sz: p["cols"].contents.__delitem__(1)),
+    ]
+    return cols, p, [(24,), (16,)], muts
+
+
+TREES = {"colsattr": _t_columns_attr, "pile": _t_pile, "frame": _t_frame, "overlay": _t_overlay, "colsflow": _t_columns_flow, "placeholder": _t_placeholder, "scroll": _t_scroll, "popup": _t_popup}
 
 
 def _snap(canv):
@@ -241,6 +264,7 @@ def h_hist(I, tree, k, free_render=True):
     combos = [(s, f) for s in sizes for f in (True, False)]
     held = {}        # canvases the "application" keeps alive (like Screen keeps the last one)
     handed = []      # (canvas, snapshot at hand-out time)
+    watched = {}     # id -> (weak reference to a cached canvas, snapshot when first seen in the cache)
     flow = len(sizes[0]) == 1
     trace = []
 
@@ -255,11 +279,23 @@ def h_hist(I, tree, k, free_render=True):
         finally:
             CanvasCache._widgets, CanvasCache._refs, CanvasCache._deps = saved
 
+    def watch_cache():
+        # every canvas the cache can hand out (children included) is remembered with its content; weakly, so that
+        # releasing the application's canvases still lets them go
+        for ref in list(CanvasCache._refs):
+            c = ref()
+            if c is not None and id(c) not in watched:
+                try:
+                    watched[id(c)] = (weakref.ref(c), _snap(c))
+                except Exception:  # noqa: BLE001
+                    pass
+
     def compare(size, focus, tag):
         ca = topA.render(size, focus)
         sa = _snap(ca)
         held[(size, focus)] = ca
         handed.append((ca, sa))
+        watch_cache()
 
         def rb():
             cb_ = topB.render(size, focus)
@@ -314,6 +350,13 @@ def h_hist(I, tree, k, free_render=True):
     # canvases handed out are never modified afterwards, and refuse modification
     unchanged = all(_snap(c) == s0 for c, s0 in handed)
     I.check("handed_out_canvases_unchanged", unchanged)
+    changed = []
+    for r, s0 in watched.values():
+        c = r()
+        if c is not None and _snap(c) != s0:
+            changed.append((type(c).__name__, repr(c.widget_info[0])[:60] if c.widget_info else None, (s0[3], s0[2]), (c.cols(), c.rows())))
+    I.check("cached_canvases_unchanged", not changed, info=changed[:3])
+    watched.clear()
     refused = True
     for c, _s0 in handed[-2:]:
         try:
